@@ -276,6 +276,18 @@ func emitNodeAssemblerHelper_mapoid_mapAssemblerMethods(w io.Writer, adjCfg *Adj
 			case maState_initial:
 				panic("invalid state: AssembleValue cannot be called when no key is primed")
 			case maState_midKey:
+				if ma.cm == schema.Maybe_Value {
+					// The key assembler cannot see the rest of the map, so a repeated key is only detectable here.
+					k := ma.w.t[len(ma.w.t)-1].k
+					if _, exists := ma.w.m[k]; exists {
+						ma.w.t = ma.w.t[:len(ma.w.t)-1]
+						ma.ka.w = nil
+						ma.ka.reset()
+						ma.cm = schema.Maybe_Absent
+						ma.state = maState_initial
+						return _ErrorThunkAssembler{datamodel.ErrRepeatedMapKey{Key: &k}}
+					}
+				}
 				if !ma.keyFinishTidy() {
 					panic("invalid state: AssembleValue cannot be called when in the middle of assembling a key")
 				} // if tidy success: carry on
